@@ -4,6 +4,7 @@ From SQ Require Import lib.Base gen.Gen_C04.
 From SQ Require model.FramePerm proofs.FramePermProofs.
 From SQ Require model.FlowRecv model.FlowRecvSpec proofs.FlowRecvProofs.
 From SQ Require model.StreamCtl model.StreamCtlSpec proofs.StreamCtlProofs.
+From SQ Require model.FrameVal proofs.FrameValProofs.
 Local Open Scope N_scope.
 
 (* ---- component "matrix": frame kind x packet-number space ---- *)
@@ -162,6 +163,15 @@ Example C04_st_example :
   /\ StreamCtlSpec.sjudge [1; 2; 2; 1; 1; 0; 1; 3; 1; 0; 5; 1; 1; 2; 0; 1; 1; 3; 0]%Z [0; 1; -1; 3; 0; 4]%Z = true.
 Proof. split; vm_compute; reflexivity. Qed.
 
+(* ---- component "fv": malformed limit values ---- *)
+
+(* for all values: the decoders of MAX_STREAMS / STREAMS_BLOCKED / NEW_CONNECTION_ID (as modelled)
+   accept exactly the well-formed frames (value <= 2^60; retire_prior_to <= sequence number and
+   connection id length in 1..20) and reject the others with PROTOCOL_VIOLATION, which RFC 9000
+   section 11 permits in place of FRAME_ENCODING_ERROR *)
+Theorem C04_fv_judge_model : forall c, FrameVal.fv_judge c (FrameVal.fv_run c) = true.
+Proof. exact FrameValProofs.fv_judge_run. Qed.
+
 Print Assumptions C04_frame_matrix_is_rfc.
 Print Assumptions C04_frame_matrix_rows.
 Print Assumptions C04_server_rejects_is_rfc.
@@ -176,3 +186,4 @@ Print Assumptions C04_st_judge_strict_refuted.
 Print Assumptions C04_rx_judge_strict_refuted.
 Print Assumptions C04_reset_rejects_exactly.
 Print Assumptions C04_reset_below_received_accepted.
+Print Assumptions C04_fv_judge_model.
